@@ -47,6 +47,7 @@ func (g *Gen) registerBase() {
 	g.add("update_batch_metadata", g.genUpdateBatchMetadata)
 	g.add("bridge", g.genBridge)
 	g.add("bridge_receive", g.genBridgeReceive)
+	g.add("bridge_combo", g.genBridgeCombo)
 	g.add("bridge_receive_bound", g.genBridgeReceiveBound)
 	g.add("mint_replay", g.genMintReplay)
 	g.add("create_batch_replay", g.genCreateBatchReplay)
@@ -799,6 +800,9 @@ func (g *Gen) genUpdateClassAdmin() *eng.Tx {
 	if g.hostile() && g.chance(0.2) {
 		id = g.mangleID(id)
 	}
+	if g.hostile() && g.chance(0.15) {
+		na = strings.ToUpper(signer) // a transfer to oneself, spelled differently
+	}
 	return tx(&basetypes.MsgUpdateClassAdmin{Admin: signer, ClassId: id, NewAdmin: na})
 }
 
@@ -872,7 +876,11 @@ func (g *Gen) genUpdateProjectAdmin() *eng.Tx {
 	if signer == obs.Addr(p.Admin) {
 		remember(g.formerProjectAdmins, p.Id, signer)
 	}
-	return tx(&basetypes.MsgUpdateProjectAdmin{Admin: signer, ProjectId: p.Id, NewAdmin: g.actor()})
+	npa := g.actor()
+	if g.hostile() && g.chance(0.15) {
+		npa = strings.ToUpper(signer) // a transfer to oneself, spelled differently
+	}
+	return tx(&basetypes.MsgUpdateProjectAdmin{Admin: signer, ProjectId: p.Id, NewAdmin: npa})
 }
 
 func (g *Gen) genUpdateProjectMetadata() *eng.Tx {
@@ -944,6 +952,65 @@ func (g *Gen) genBridge() *eng.Tx {
 		}
 	}
 	return tx(&basetypes.MsgBridge{Owner: g.owner(owner), Target: sources[g.R.Intn(len(sources))], Recipient: ethAddr(g.R.Intn(100)), Credits: cr})
+}
+
+// genBridgeCombo: the bridge-target allow list through its whole life around one holder of bridged
+// credits — a chain is added INSIDE a transaction whose bridge-out then fails (everything reverted), the
+// holder bridges out to that chain (must be refused), governance really adds it, the holder bridges out
+// (accepted), governance removes it, the holder tries once more (must be refused).
+func (g *Gen) genBridgeCombo() *eng.Tx {
+	var h *obs.Bal
+	var keys []obs.BalKey
+	for k := range g.V.Balances {
+		keys = append(keys, k)
+	}
+	sort.Slice(keys, func(i, j int) bool {
+		if keys[i].BatchKey != keys[j].BatchKey {
+			return keys[i].BatchKey < keys[j].BatchKey
+		}
+		return keys[i].Addr < keys[j].Addr
+	})
+	for _, k := range keys {
+		bal := g.V.Balances[k]
+		if _, ok := g.V.ContractOf[k.BatchKey]; ok && bal.T != nil && bal.T.Cmp(big.NewRat(1, 1)) > 0 && (h == nil || g.chance(0.3)) {
+			h = bal
+		}
+	}
+	if h == nil {
+		return nil
+	}
+	b := g.V.Batches[h.Row.BatchKey]
+	if b == nil {
+		return nil
+	}
+	owner := obs.Addr(h.Row.Address)
+	chain := []string{"celo", "Celo", "gnosis", "Optimism"}[g.R.Intn(4)]
+	gov := g.Gov
+	tooMuch := trimDec(ratToDec(new(big.Rat).Add(h.T, big.NewRat(1, 1)), 6))
+	bridge := func(tag, amt string) func() *eng.Tx {
+		return func() *eng.Tx {
+			return &eng.Tx{Msgs: []sdk.Msg{&basetypes.MsgBridge{Owner: owner, Target: chain, Recipient: ethAddr(7), Credits: []*basetypes.Credits{{BatchDenom: b.Denom, Amount: amt}}}}, Tag: tag}
+		}
+	}
+	one := func(tag string, m sdk.Msg) func() *eng.Tx {
+		return func() *eng.Tx { return &eng.Tx{Msgs: []sdk.Msg{m}, Tag: tag} }
+	}
+	g.script = append(g.script,
+		func() *eng.Tx {
+			return &eng.Tx{Msgs: []sdk.Msg{
+				&basetypes.MsgAddAllowedBridgeChain{Authority: gov, ChainName: chain},
+				&basetypes.MsgBridge{Owner: owner, Target: chain, Recipient: ethAddr(7), Credits: []*basetypes.Credits{{BatchDenom: b.Denom, Amount: tooMuch}}}, // more than the owner has: fails, reverting the transaction
+			}, Tag: "bridge_combo/reverted-add"}
+		},
+		bridge("bridge_combo/after-reverted-add", "0.25"),
+		one("bridge_combo/add", &basetypes.MsgAddAllowedBridgeChain{Authority: gov, ChainName: chain}),
+		bridge("bridge_combo/allowed", "0.25"),
+		func() *eng.Tx {
+			return &eng.Tx{Msgs: []sdk.Msg{&basetypes.MsgBridge{Owner: owner, Target: strings.ToUpper(chain), Recipient: ethAddr(7), Credits: []*basetypes.Credits{{BatchDenom: b.Denom, Amount: "0.125"}}}}, Tag: "bridge_combo/allowed-other-spelling"}
+		},
+		one("bridge_combo/remove", &basetypes.MsgRemoveAllowedBridgeChain{Authority: gov, ChainName: chain}),
+		bridge("bridge_combo/removed", "0.25"))
+	return &eng.Tx{Msgs: []sdk.Msg{&basetypes.MsgRemoveAllowedBridgeChain{Authority: gov, ChainName: chain}}, Tag: "bridge_combo"}
 }
 
 func (g *Gen) genBridgeReceive() *eng.Tx {
